@@ -491,7 +491,7 @@ func ruleOwnGoroutine(c *Ctx, r *R, op ownedParam, key string, uses []ownUse) {
 				started = "go"
 				goInstr = x
 			case *ssa.Call:
-				if cal := x.Call.StaticCallee(); cal != nil && cal.Name() == "Go" && cal.Pkg != nil && strings.HasSuffix(cal.Pkg.Pkg.Path(), "errgroup") {
+				if cal := x.Call.StaticCallee(); cal != nil && fname(cal) == "Go" && cal.Pkg != nil && strings.HasSuffix(cal.Pkg.Pkg.Path(), "errgroup") {
 					started = "errgroup"
 					goInstr = x
 				}
@@ -552,7 +552,7 @@ func ruleOwnGoroutine(c *Ctx, r *R, op ownedParam, key string, uses []ownUse) {
 					}
 				}
 			}
-			if cal := x.Call.StaticCallee(); cal != nil && cal.Name() == "Done" && isNamedType(cal.Signature.Recv().Type(), "sync", "WaitGroup") {
+			if cal := x.Call.StaticCallee(); cal != nil && fname(cal) == "Done" && isNamedType(cal.Signature.Recv().Type(), "sync", "WaitGroup") {
 				if deferDone == nil {
 					deferDone = x
 				}
@@ -748,7 +748,7 @@ func closeWaits(fn *ssa.Function) (waits, cancels, order bool) {
 		if !ok {
 			return
 		}
-		if cal := call.Call.StaticCallee(); cal != nil && cal.Name() == "Wait" && cal.Signature.Recv() != nil {
+		if cal := call.Call.StaticCallee(); cal != nil && fname(cal) == "Wait" && cal.Signature.Recv() != nil {
 			rt := cal.Signature.Recv().Type()
 			if isNamedType(rt, "sync", "WaitGroup") || isNamedType(rt, "errgroup", "Group") {
 				waitIn = in
